@@ -20,6 +20,19 @@ def items(tier):
     for c in grid.complex_grid(tier):
         out.append(("vjp", c))
         out.append(("jvp", c))
+    # the FFT family of the real grid: real -> complex (rfft*), complex -> real (irfft*) and complex -> complex transforms
+    # with every axes / s / n / norm layout (the half-spectrum weights are where the convention bites)
+    seen = {it[0] + " " + it[1].key for it in out}
+    for c in grid.real_grid(tier, families=("fft",)):
+        c.label = "FFTGRID " + c.label
+        c.tags.add("complex")
+        for mode in ("vjp", "jvp"):
+            if mode + " " + c.key not in seen:
+                out.append((mode, c))
+    if tier == "thorough" or os.environ.get("VF_C09_GRID"):
+        for c in grid.complexified_grid(tier):
+            out.append(("vjp", c))
+            out.append(("jvp", c))
     for case in checks_a.holo_cases():
         out.append(("holo", case))
     only = os.environ.get("VF_ONLY")
